@@ -50,7 +50,15 @@ ITEMS = {
                       "exe3 = executable('prog3', ['m3.c'], libs=[dep])", "install(exe3)"],
                      {'dep3.c': 'int d;\n', 'm3.c': 'int main(){}\n'},
                      {'bindir': ['prog3'], 'libdir': ['libs/libdep3.so']}),
+    # a built shared library AND a user-given run path: the installed program needs both
+    'exe-dep-rpathdir': (["dep4 = shared_library('libs4/dep4', ['dep4.c'])",
+                          "exe4 = executable('prog4', ['m4.c'], libs=[dep4], "
+                          "link_options=[opts.rpath_dir(Path('/vendor/lib', Root.absolute))])", "install(exe4)"],
+                         {'dep4.c': 'int d;\n', 'm4.c': 'int main(){}\n'},
+                         {'bindir': ['prog4'], 'libdir': ['libs4/libdep4.so']}),
 }
+# item -> (installed program, sub-directory of libdir its library goes to, further run-path entries)
+PATCHELF = {'exe-with-dep': ('prog3', 'libs', []), 'exe-dep-rpathdir': ('prog4', 'libs4', ['/vendor/lib'])}
 DIR_OPTS = ['prefix', 'exec-prefix', 'bindir', 'libdir', 'includedir', 'datadir', 'mandir']
 
 
@@ -150,16 +158,18 @@ def _shard(arg):
                     problems.append('%s is not a valid symlink' % ln)
         if proj.contents(pr.src) != src_before:
             problems.append('the source tree was modified')
-        if 'exe-with-dep' in subset:
+        for it, (prog, sub, more) in PATCHELF.items():
+            if it not in subset:
+                continue
             pe = [x for x in recs if x['tool'] == 'patchelf']
-            wantfile = os.path.normpath(dest + os.path.join(dirs['bindir'], 'prog3'))
-            wantrp = os.path.join(dirs['libdir'], 'libs')
+            wantfile = os.path.normpath(dest + os.path.join(dirs['bindir'], prog))
+            wantrp = [os.path.normpath(os.path.join(dirs['libdir'], sub))] + more
             okp = [x for x in pe if '--set-rpath' in x['argv'] and
                    os.path.normpath(x['argv'][-1]) == wantfile and
-                   os.path.normpath(x['argv'][x['argv'].index('--set-rpath') + 1]) == os.path.normpath(wantrp)]
+                   [os.path.normpath(e) for e in x['argv'][x['argv'].index('--set-rpath') + 1].split(':')] == wantrp]
             if not okp:
                 problems.append('patchelf was not asked to set the run path of %s to %s: %r'
-                                % (wantfile.replace(root, '<root>'), wantrp.replace(root, '<root>'),
+                                % (wantfile.replace(root, '<root>'), ':'.join(wantrp).replace(root, '<root>'),
                                    [x['argv'][1:] for x in pe]))
         if not problems:
             bld_before = tree(pr.bld)
